@@ -169,6 +169,24 @@ Section C09.
     (cls m = MUnlinkOnly -> mutate content mut val apply cls unlink_checked ss m = Ok (ss, v)) /\
     (cls m = MUnlinkLoop -> exists w, mutate content mut val apply cls unlink_checked ss m = UB w).
   Proof. exact (ro_unlink_unchecked content mut val apply cls unlink_checked). Qed.
+
+  (** OPEN FINDING (known-findings.json, C09 second-file / ro-while-rw-open): for a SECOND File object on a path the
+      same process has open ReadWrite, "every mutating call on a ReadOnly File fails" is refuted — HDF5 decides by the
+      intent of the first open: the ReadOnly open succeeds, reports ReadOnly, and the call is accepted and changes the
+      shared image.  [C09_ro_no_write] is the statement for a File that is the only one of its process on the path
+      (the partial statement); the other order is refused. *)
+  Theorem C09_second_ro_file_refuted : forall (ss : session content) m c v comp,
+    is_ro (s_mode _ ss) = false ->
+    checkHeader (f_hdr _ (s_img _ ss)) ReadOnly true = Ok true ->
+    apply m (f_tree _ (s_img _ ss)) = Ok (c, v) ->
+    second_open content ss ReadOnly comp false = Ok (ReadOnly, resolve_comp comp) /\
+    mutate_second content mut val apply cls unlink_checked ss m = Ok (set_tree content ss c, v).
+  Proof. exact (second_ro_file_accepts_refuted content mut val apply cls unlink_checked). Qed.
+
+  Theorem C09_second_rw_after_ro_refused : forall (ss : session content) mode comp force,
+    is_ro (s_mode _ ss) = true -> mode <> ReadOnly ->
+    second_open content ss mode comp force = Err "nix::hdf5::H5Exception".
+  Proof. exact (second_rw_after_ro_refused content). Qed.
 End C09.
 
 (** the section is closed: every theorem above is now quantified over content, mutators and file systems *)
@@ -192,6 +210,8 @@ Print Assumptions C09_force_rw.
 Print Assumptions C09_force_ro.
 Print Assumptions C09_open_meets_spec.
 Print Assumptions C09_ro_unchecked_unlink_refuted.
+Print Assumptions C09_second_ro_file_refuted.
+Print Assumptions C09_second_rw_after_ro_refused.
 
 
 (** the header check used by the model and all gate theorems is the function regenerated from
